@@ -880,8 +880,9 @@ def _check_island_can_sleep(
   island_id = tree_island_in[worldid, treeid]
   if island_id >= 0 and island_id < nisland:
     as_val = tree_asleep_in[worldid, treeid]
-    if as_val < -1:
-      # Not ready to sleep yet
+    if as_val < -1 or as_val >= 0:
+      # Not ready to sleep yet, or already asleep: a sleeping tree belongs to an existing sleep
+      # cycle (possibly a larger one than this island) that must not be re-linked
       wp.atomic_min(island_can_sleep_out, worldid, island_id, 0)
 
 
